@@ -52,6 +52,10 @@ package main
 //        member with its own `required`), absent, null, all-zero or filled: validate-iff.  The verdict is the direct
 //        validator's on the field AS DECLARED (a pointer field is handed over as the pointer: `required` holds for a
 //        non-nil pointer to 0 / false / "", `omitempty` does not skip it).
+//        A placeholder may name its key (or its default) through another placeholder — `${rate_${tier}}`,
+//        `${k:${fallback}}`: the tree node of such a placeholder carries the parts of its key / default, the direct
+//        substitution resolves them inside-out (inner text first, then the key it spells); expressions and value x
+//        constraint pairs over such placeholders are judged by the same oracles (label computed-key).
 //   two-step histories: the same oracles on the SECOND creation against the CURRENT configuration (cfg overlaid with
 //        set): C17 V = P = X and X = the current document value; C18 the expression is evaluated on the current
 //        values and validation judges the value actually bound.  A field that still shows what the FIRST configuration
@@ -572,12 +576,49 @@ type vlTnode struct {
 	dflt  *string
 	inner []vlTnode // #{ … }
 	kind  byte      // 'l' 'p' 'e'
+	// a placeholder whose key / default is itself built from text and placeholders (`${rate.${tier}}`,
+	// `${k:${fallback}}`): the inner placeholders are substituted first, the resulting text is the key / the default.
+	// non-nil keyT replaces key, non-nil dfltT replaces dflt.
+	keyT  []vlTnode
+	dfltT []vlTnode
 }
 
 func vlTLit(s string) vlTnode          { return vlTnode{kind: 'l', lit: s} }
 func vlTPH(k string) vlTnode           { return vlTnode{kind: 'p', key: k} }
 func vlTPHD(k, d string) vlTnode       { return vlTnode{kind: 'p', key: k, dflt: &d} }
 func vlTExpr(inner ...vlTnode) vlTnode { return vlTnode{kind: 'e', inner: inner} }
+
+// vlTPHN: `${<key parts>}` — a placeholder whose key is computed from other placeholders.
+func vlTPHN(key ...vlTnode) vlTnode { return vlTnode{kind: 'p', keyT: key} }
+
+// vlTPHND: `${<key parts>:<default parts>}`; either side may contain placeholders.
+func vlTPHND(key, dflt []vlTnode) vlTnode {
+	if dflt == nil {
+		dflt = []vlTnode{}
+	}
+	return vlTnode{kind: 'p', keyT: key, dfltT: dflt}
+}
+
+// vlHasComputedKey: some placeholder of the tree has a key or default built from another placeholder.
+func vlHasComputedKey(ns []vlTnode) bool {
+	for _, n := range ns {
+		switch n.kind {
+		case 'p':
+			for _, part := range [][]vlTnode{n.keyT, n.dfltT} {
+				for _, m := range part {
+					if m.kind == 'p' {
+						return true
+					}
+				}
+			}
+		case 'e':
+			if vlHasComputedKey(n.inner) {
+				return true
+			}
+		}
+	}
+	return false
+}
 
 func vlTagText(ns []vlTnode) string {
 	var sb strings.Builder
@@ -586,8 +627,14 @@ func vlTagText(ns []vlTnode) string {
 		case 'l':
 			sb.WriteString(n.lit)
 		case 'p':
-			sb.WriteString("${" + n.key)
-			if n.dflt != nil {
+			if n.keyT != nil {
+				sb.WriteString("${" + vlTagText(n.keyT))
+			} else {
+				sb.WriteString("${" + n.key)
+			}
+			if n.dfltT != nil {
+				sb.WriteString(":" + vlTagText(n.dfltT))
+			} else if n.dflt != nil {
 				sb.WriteString(":" + *n.dflt)
 			}
 			sb.WriteString("}")
@@ -612,7 +659,23 @@ func vlDirectSubst(ns []vlTnode, cfg map[string]any, evals *[]vlEvalEntry) (stri
 		case 'l':
 			sb.WriteString(n.lit)
 		case 'p':
-			v, present := cfg[n.key]
+			// a key / default built from placeholders: those are substituted first, the text they give is the key / default
+			key, dflt := n.key, n.dflt
+			if n.keyT != nil {
+				k, err := vlDirectSubst(n.keyT, cfg, evals)
+				if err != nil {
+					return "", err
+				}
+				key = k
+			}
+			if n.dfltT != nil {
+				d, err := vlDirectSubst(n.dfltT, cfg, evals)
+				if err != nil {
+					return "", err
+				}
+				dflt = &d
+			}
+			v, present := cfg[key]
 			if m, ok := v.(map[string]any); ok && len(m) == 0 {
 				present = false
 			}
@@ -621,8 +684,8 @@ func vlDirectSubst(ns []vlTnode, cfg map[string]any, evals *[]vlEvalEntry) (stri
 			}
 			if !present || v == nil {
 				v = nil // an empty map or list counts as absent
-				if n.dflt != nil && *n.dflt != "" {
-					d, err := strconv2.ParseAny(*n.dflt)
+				if dflt != nil && *dflt != "" {
+					d, err := strconv2.ParseAny(*dflt)
 					if err != nil {
 						return "", err
 					}
@@ -1764,16 +1827,10 @@ func vlParseTagTree(s string, inExpr bool) []vlTnode {
 	}
 	for i := 0; i < len(s); {
 		if strings.HasPrefix(s[i:], "${") {
-			j := strings.IndexAny(s[i+2:], "{}")
-			if j >= 0 && s[i+2+j] == '}' {
+			if n, next, ok := vlParsePlaceholder(s, i); ok {
 				flush(i)
-				content := s[i+2 : i+2+j]
-				if k := strings.IndexByte(content, ':'); k >= 0 {
-					out = append(out, vlTPHD(content[:k], content[k+1:]))
-				} else {
-					out = append(out, vlTPH(content))
-				}
-				i += 2 + j + 1
+				out = append(out, n)
+				i = next
 				litStart = i
 				continue
 			}
@@ -1784,8 +1841,8 @@ func vlParseTagTree(s string, inExpr bool) []vlTnode {
 			end := -1
 			for j < len(s) {
 				if strings.HasPrefix(s[j:], "${") {
-					if k := strings.IndexAny(s[j+2:], "{}"); k >= 0 && s[j+2+k] == '}' {
-						j += 2 + k + 1
+					if _, next, ok := vlParsePlaceholder(s, j); ok {
+						j = next
 						continue
 					}
 				}
@@ -1810,6 +1867,76 @@ func vlParseTagTree(s string, inExpr bool) []vlTnode {
 	}
 	flush(len(s))
 	return out
+}
+
+// vlParsePlaceholder reads the placeholder that starts at s[i:] = "${…": its content is text without braces and
+// further (well-formed) placeholders, up to the closing brace; the first top-level colon separates key and default.
+// ok=false: no well-formed placeholder starts here.
+func vlParsePlaceholder(s string, i int) (n vlTnode, next int, ok bool) {
+	var parts []vlTnode
+	nested := false
+	j := i + 2
+	litStart := j
+	flush := func(k int) {
+		if k > litStart {
+			parts = append(parts, vlTLit(s[litStart:k]))
+		}
+	}
+	for {
+		if j >= len(s) {
+			return vlTnode{}, 0, false
+		}
+		if strings.HasPrefix(s[j:], "${") {
+			m, nx, ok := vlParsePlaceholder(s, j)
+			if !ok {
+				return vlTnode{}, 0, false
+			}
+			flush(j)
+			parts = append(parts, m)
+			nested = true
+			j = nx
+			litStart = j
+			continue
+		}
+		if s[j] == '{' {
+			return vlTnode{}, 0, false
+		}
+		if s[j] == '}' {
+			flush(j)
+			break
+		}
+		j++
+	}
+	next = j + 1
+	if !nested {
+		content := s[i+2 : j]
+		if k := strings.IndexByte(content, ':'); k >= 0 {
+			return vlTPHD(content[:k], content[k+1:]), next, true
+		}
+		return vlTPH(content), next, true
+	}
+	// split at the first colon outside the inner placeholders
+	for pi, p := range parts {
+		if p.kind != 'l' {
+			continue
+		}
+		if k := strings.IndexByte(p.lit, ':'); k >= 0 {
+			key := append([]vlTnode{}, parts[:pi]...)
+			if k > 0 {
+				key = append(key, vlTLit(p.lit[:k]))
+			}
+			dflt := []vlTnode{}
+			if k+1 < len(p.lit) {
+				dflt = append(dflt, vlTLit(p.lit[k+1:]))
+			}
+			dflt = append(dflt, parts[pi+1:]...)
+			if len(key) == 0 {
+				key = []vlTnode{}
+			}
+			return vlTPHND(key, dflt), next, true
+		}
+	}
+	return vlTPHN(parts...), next, true
 }
 
 func vlSplitTagArgs(text string) (val, args string) {
@@ -3190,6 +3317,209 @@ func vlGenPtrZeroValidateCase(r *hx.Rng) *vlVcase {
 	return c
 }
 
+// ---- C18: placeholders with a computed key inside expressions and value x constraint pairs
+
+const vlSelAlpha = "ghjkmqruvwyz"
+
+// vlGenSelWord: what a selector key holds — a short lower-case word or a small number (it becomes part of a key).
+func vlGenSelWord(r *hx.Rng) *vlCval {
+	if r.P(1, 4) {
+		return vlCInt(int64(r.Intn(10)))
+	}
+	n := 2 + r.Intn(3)
+	b := make([]byte, n)
+	for i := range b {
+		b[i] = vlSelAlpha[r.Intn(len(vlSelAlpha))]
+	}
+	return vlCStr(string(b))
+}
+
+func vlSelText(v *vlCval) string {
+	if v.k == 'i' {
+		return strconv.FormatInt(v.i, 10)
+	}
+	return v.s
+}
+
+// vlOtherSel: a selector value different from w (the key of the decoy sibling).
+func vlOtherSel(r *hx.Rng, w *vlCval) *vlCval {
+	for {
+		o := vlGenSelWord(r)
+		if vlSelText(o) != vlSelText(w) {
+			return o
+		}
+	}
+}
+
+type vlKeyComputer struct {
+	r     *hx.Rng
+	cfg   map[string]*vlCval
+	n     int
+	done  map[string]vlTnode // flat key -> the placeholder that replaced it (the same key twice: the same rewrite)
+	count int
+}
+
+func (kc *vlKeyComputer) selKey() string {
+	kc.n++
+	return fmt.Sprintf("ks%d", kc.n)
+}
+
+// selector: the parts that give `word` when substituted: `${ksN}` with ksN: word | `${ksN:word}` with ksN absent |
+// `${ksN_${ksM}}` with ksM: w2 and ksN_w2: word (two levels)
+func (kc *vlKeyComputer) selector(word *vlCval, depth int) vlTnode {
+	r := kc.r
+	sk := kc.selKey()
+	switch k := r.Intn(8); {
+	case k == 0: // the selector is not configured and declares a default
+		return vlTPHD(sk, vlSelText(word))
+	case k == 1 && depth > 0: // the selector's key is computed as well
+		w2 := vlGenSelWord(r)
+		sep := []string{"", "_", "-"}[r.Intn(3)]
+		if w2.k == 'i' && sep == "" {
+			sep = "_" // digits glued to a numbered key could spell another generated key
+		}
+		kc.cfg[sk+sep+vlSelText(w2)] = word
+		kc.cfg[sk+sep+vlSelText(vlOtherSel(r, w2))] = vlOtherSel(r, word)
+		return vlTPHN(vlTLit(sk+sep), kc.selector(w2, depth-1))
+	default:
+		kc.cfg[sk] = word
+		return vlTPH(sk)
+	}
+}
+
+// rewrite turns the flat placeholder n (`${k}` / `${k:d}`) into one whose key — or default — is built from another
+// placeholder, and moves the configured value of k to the key that the inner placeholder selects.  What the tag
+// denotes is unchanged: the same value under a key that is spelled in two steps.
+func (kc *vlKeyComputer) rewrite(n vlTnode) vlTnode {
+	if n.keyT != nil || n.dfltT != nil {
+		return n
+	}
+	if d, ok := kc.done[n.key]; ok {
+		if (d.dflt == nil) == (n.dflt == nil) && (n.dflt == nil || *d.dflt == *n.dflt) {
+			return d
+		}
+		return n
+	}
+	r := kc.r
+	if kc.count > 0 && r.P(1, 3) {
+		return n // left flat: computed and flat placeholders side by side
+	}
+	v, present := kc.cfg[n.key]
+	word := vlGenSelWord(r)
+	sep := []string{"", "_", "-"}[r.Intn(3)]
+	if word.k == 'i' && sep == "" {
+		sep = "_" // digits glued to a numbered key could spell another generated key
+	}
+	out := n
+	switch {
+	case present:
+		delete(kc.cfg, n.key)
+		var newKey string
+		if r.P(1, 5) { // the computed part in front: `${${sel}_k}`
+			newKey = vlSelText(word) + sep + n.key
+			if word.k == 'i' {
+				newKey = "k" + newKey
+				out.keyT = []vlTnode{vlTLit("k"), kc.selector(word, 1), vlTLit(sep + n.key)}
+			} else {
+				out.keyT = []vlTnode{kc.selector(word, 1), vlTLit(sep + n.key)}
+			}
+		} else {
+			newKey = n.key + sep + vlSelText(word)
+			out.keyT = []vlTnode{vlTLit(n.key + sep), kc.selector(word, 1)}
+			// a sibling under another selector value holds a different value
+			switch v.k {
+			case 'i', 'F', 'f', 'b', 's':
+				kc.cfg[n.key+sep+vlSelText(vlOtherSel(r, word))] = vlVaryValue(r, v, nil)
+			}
+		}
+		kc.cfg[newKey] = v
+		out.key = ""
+	case n.dflt != nil && r.Bool():
+		// k is not configured and its default comes from the configuration: `${k:${kfb}}`
+		var dv *vlCval
+		if i, err := strconv.ParseInt(*n.dflt, 10, 64); err == nil {
+			dv = vlCInt(i)
+		} else if *n.dflt == "true" || *n.dflt == "false" {
+			dv = vlCBool(*n.dflt == "true")
+		}
+		if dv == nil {
+			return n
+		}
+		fb := kc.selKey()
+		kc.cfg[fb] = dv
+		out.keyT = []vlTnode{vlTLit(n.key)}
+		out.dfltT = []vlTnode{vlTPH(fb)}
+		out.key, out.dflt = "", nil
+	default:
+		// k is not configured under the selected key either: the default (if any) stands in
+		out.keyT = []vlTnode{vlTLit(n.key + sep), kc.selector(word, 1)}
+		out.key = ""
+	}
+	kc.done[n.key] = out
+	kc.count++
+	return out
+}
+
+func (kc *vlKeyComputer) walk(ns []vlTnode) []vlTnode {
+	out := make([]vlTnode, 0, len(ns))
+	for _, n := range ns {
+		switch n.kind {
+		case 'p':
+			n = kc.rewrite(n)
+		case 'e':
+			n.inner = kc.walk(n.inner)
+		}
+		out = append(out, n)
+	}
+	return out
+}
+
+// vlGenComputedKeyCase: an expression case or a value x constraint pair (any of the generators above) whose
+// placeholders name their keys in two steps — `#{${rate_${tier}} * 100}`, `${limit-${env}},validate=min=3`,
+// `${${zone}_quota:5}`, `${k:${fallback}}` — with a sibling key under another selector value holding a different value.
+// Placeholders are substituted inside-out; the expression must see, and validation must judge, the selected value.
+func vlGenComputedKeyCase(r *hx.Rng) *vlVcase {
+	for try := 0; ; try++ {
+		var c *vlVcase
+		switch k := r.Intn(12); {
+		case k < 5:
+			c = vlGenExprCaseWith(r, false)
+		case k < 7:
+			c = vlGenExprCaseWith(r, true)
+		case k < 10:
+			c = vlGenValidateCase(r)
+		case k < 11:
+			c = vlGenPtrZeroValidateCase(r)
+		default:
+			c = vlGenNestedValidateCase(r)
+		}
+		cfg := map[string]*vlCval{}
+		for i, k := range c.cfg.mk {
+			cfg[k] = c.cfg.mv[i]
+		}
+		kc := &vlKeyComputer{r: r, cfg: cfg, done: map[string]vlTnode{}}
+		if c.kind == "Q" {
+			// by prefix: the prefix tag names the key in two steps, `prefix:"k_${sel}"`
+			key := vlTagText(c.tags[0])
+			if v, ok := cfg[key]; ok {
+				word := vlGenSelWord(r)
+				delete(cfg, key)
+				cfg[key+"_"+vlSelText(word)] = v
+				c.tags = [][]vlTnode{{vlTLit(key + "_"), kc.selector(word, 0)}}
+				kc.count++
+			}
+		} else {
+			c.tags = [][]vlTnode{kc.walk(c.tags[0])}
+		}
+		if kc.count == 0 && try < 8 {
+			continue // nothing but literals: draw again
+		}
+		c.cfg = vlCMap(cfg)
+		c.labels = append(c.labels, "computed-key")
+		return c
+	}
+}
+
 // ---- two-step histories: generators
 
 // vlGenSafeFor: a document value that matches the type and is in none of the lossy classes of the value path (for such
@@ -3528,6 +3858,10 @@ func init() {
 				vlRunCase(vlGenValidateCase(r), w)
 			}
 		}
+		// after the n cases above (their streams are untouched): one more case in twelve spells its keys in two steps
+		for i := 0; i < n/12; i++ {
+			vlRunCase(vlGenComputedKeyCase(rng.Fork()), w)
+		}
 	}, Replay: vlValueReplay, Corpus: vlValueExprCorpus})
 }
 
@@ -3731,6 +4065,27 @@ func vlValueExprCorpus(w *hx.Writer) {
 	vlRunCase(vlExprCase(vlTB, zcfg, "", vlTExpr(vlTPHD("f0", "true"), vlTLit(" || 1 > 2"))), w)
 	vlRunCase(vlExprCase(vlTD, zcfg, "", vlTExpr(vlTPHD("d0", "0.5"), vlTLit(" + 1.5"))), w)
 	vlRunCase(vlExprCase(vlTS, zcfg, "", vlTLit("retry/"), vlTPHD("n0", "3"), vlTLit("/x")), w)
+	// a placeholder whose key (or default) is built from another placeholder: substituted inside-out, BEFORE the
+	// expression is evaluated / the value is bound and validated — rates by tier, greetings by region
+	rates := map[string]*vlCval{"tier": vlCStr("gold"), "region": vlCStr("eu"), "rate_gold": vlCInt(3), "rate_silver": vlCInt(2),
+		"greeting-eu": vlCStr("hello"), "greeting-us": vlCStr("howdy"), "level": vlCInt(2), "limit2": vlCInt(40), "limit3": vlCInt(4), "fallback": vlCInt(7)}
+	byTier := vlTPHN(vlTLit("rate_"), vlTPH("tier"))
+	vlRunCase(vlExprCase(vlTI, rates, "", vlTExpr(byTier, vlTLit("*100"))), w)
+	vlRunCase(vlExprCase(vlTS, rates, "", vlTExpr(vlTLit("'"), vlTPHN(vlTLit("greeting-"), vlTPH("region")), vlTLit("'+' '+'world'"))), w)
+	vlRunCase(vlExprCase(vlTI, rates, ",validate=eq=5", vlTExpr(vlTPH("rate_silver"), vlTLit("+"), byTier)), w) // after another placeholder
+	vlRunCase(vlExprCase(vlTI, rates, ",validate=eq=6", vlTExpr(vlTPH("rate_silver"), vlTLit("+"), byTier)), w)
+	vlRunCase(vlExprCase(vlTI, rates, "", vlTExpr(byTier, vlTLit("+"), vlTPH("rate_silver"))), w) // before another placeholder
+	vlRunCase(vlExprCase(vlTI, rates, ",validate=min=3", byTier), w)                              // value x constraint through a computed key
+	vlRunCase(vlExprCase(vlTI, rates, ",validate=min=4", byTier), w)
+	vlRunCase(vlExprCase(vlTI, rates, ",validate=max=10", vlTPHN(vlTLit("limit"), vlTPH("level"))), w) // the selector is a number
+	vlRunCase(vlExprCase(vlTI, rates, ",validate=max=10", vlTPHN(vlTLit("limit"), vlTPHD("nolevel", "3"))), w)
+	vlRunCase(vlExprCase(vlTI, rates, "", vlTExpr(vlTPHND([]vlTnode{vlTLit("rate_"), vlTPH("region")}, []vlTnode{vlTLit("9")}), vlTLit("*2"))), w) // rate_eu is not configured: the default
+	vlRunCase(vlExprCase(vlTI, rates, "", vlTExpr(vlTPHND([]vlTnode{vlTLit("rate_"), vlTPH("tier")}, []vlTnode{vlTLit("9")}), vlTLit("*2"))), w)   // configured: not the default
+	vlRunCase(vlExprCase(vlTI, rates, "", vlTExpr(vlTPHND([]vlTnode{vlTLit("missing")}, []vlTnode{vlTPH("fallback")}), vlTLit("+1"))), w)          // the default comes from the configuration
+	vlRunCase(vlExprCase(vlTI, map[string]*vlCval{"env": vlCStr("prod"), "tier_prod": vlCStr("silver"), "rate_gold": vlCInt(3), "rate_silver": vlCInt(2)}, "",
+		vlTExpr(vlTPHN(vlTLit("rate_"), vlTPHN(vlTLit("tier_"), vlTPH("env"))), vlTLit("*100"))), w) // two levels
+	vlRunCase(vlExprCase(vlTS, rates, "", vlTLit("say "), vlTPHN(vlTLit("greeting-"), vlTPH("region")), vlTLit("!")), w) // no expression at all
+	vlRunCase(&vlVcase{kind: "Q", t: vlTI, cfg: vlCMap(rates), args: ",validate=min=3", tags: [][]vlTnode{{vlTLit("rate_"), vlTPH("tier")}}, labels: []string{"corpus"}}, w)
 	// holders that also have a component field: both property groups reach the processors, in either order
 	vlRunCase(vlWith(vlExprCase(vlTI, cfg, "", vlTExpr(vlTPH("a"), vlTLit("+"), vlTPH("b"), vlTLit("*2"))), false, true), w)
 	vlRunCase(vlWith(vlExprCase(vlTB, cfg, "", vlTExpr(vlTPH("a"), vlTLit("+"), vlTPH("b"), vlTLit(">2"))), false, true), w)
